@@ -226,11 +226,20 @@ func VerifC11_ConflictSequence() {
 	if other {
 		plan = append(plan, env.FaultInternal)
 	}
+	// the winner of the LAST conflict may have deleted the parent and created
+	// another one under the same name: that one is never written
+	replaced := k >= 1 && !other && rt.Bool("the-last-conflict-was-won-by-a-delete-and-recreate")
 	w.Srv.FaultPlan = plan
 	w.Srv.FaultOnlyResource = "things"
 	edits := 0
 	w.Srv.OnFault = func(n int) {
 		if n >= k {
+			return
+		}
+		if replaced && n == k-1 {
+			repl := env.Thing("ns", "p", "puid-recreated")
+			repl.Object["spec"].(map[string]interface{})["x"] = "of-the-new-parent"
+			w.Srv.Put("things", repl)
 			return
 		}
 		// the writer that won the race: spec edit, new resourceVersion and generation
@@ -278,6 +287,20 @@ func VerifC11_ConflictSequence() {
 	rt.Assert(gets >= attempts, "conflicts/fewer-reads-than-write-attempts")
 	cur := w.Srv.Peek("things", "ns", "p")
 	cst, _ := cur.Object["status"].(map[string]interface{})
+	if replaced {
+		rt.Cover("conflicts/parent-replaced-meanwhile")
+		for i := range w.Srv.Log {
+			r := &w.Srv.Log[i]
+			if r.Resource == "things" && r.IsWrite() && r.Accepted {
+				rt.Assert(r.Pre != nil && string(r.Pre.GetUID()) == "puid", "conflicts/status-written-to-a-same-named-parent-with-another-uid")
+			}
+		}
+		rt.Assert(string(cur.GetUID()) == "puid-recreated", "conflicts/replacement-vanished")
+		rt.Assert(cst == nil, "conflicts/status-written-to-a-same-named-parent-with-another-uid")
+		sp, _ := cur.Object["spec"].(map[string]interface{})
+		rt.Assert(sp["x"] == "of-the-new-parent", "conflicts/replacement-modified")
+		return
+	}
 	if err == nil {
 		rt.Cover("conflicts/succeeded")
 		// (whether an error other than a conflict ends the retries or is retried
